@@ -96,4 +96,106 @@ theorem accepted_has_checksum (H : Bytes → Bytes) (idx : List Nat) (e : Bytes)
 /-- a wrong number of words is rejected -/
 example (H : Bytes → Bytes) : bip39Entropy H [1, 2, 3] = none := by simp [bip39Entropy]
 
+theorem map_toNat_ofNat (l : List Nat) (h : ∀ v ∈ l, v < 2 ^ 8) : (l.map UInt8.ofNat).map (·.toNat) = l := by
+  induction l with
+  | nil => rfl
+  | cons a l ih =>
+    simp only [List.map_cons]
+    rw [ih (fun v hv => h v (List.mem_cons_of_mem _ hv))]
+    have : a < 2 ^ 8 := h a (List.mem_cons_self ..)
+    congr 1
+    simp [UInt8.toNat_ofNat']; omega
+
+/-- T4: an accepted sentence is THE BIP39 sentence of the entropy it yields (with T1: entropies of the five lengths and
+accepted sentences correspond one to one; nothing else is accepted) -/
+theorem accepted_is_canonical (H : Bytes → Bytes) (idx : List Nat) (e : Bytes) (h : bip39Entropy H idx = some e) :
+    bip39Indices H e = some idx := by
+  unfold bip39Entropy at h
+  by_cases hl : (idx.length == 12 || idx.length == 15 || idx.length == 18 || idx.length == 21 || idx.length == 24) = true
+  · rw [hl] at h
+    simp only [Bool.not_true, Bool.false_eq_true, if_false] at h
+    by_cases ha : idx.any (· ≥ 2048) = true
+    · rw [ha] at h; simp at h
+    · have ha' : idx.any (· ≥ 2048) = false := by simpa using ha
+      rw [ha'] at h
+      simp only [Bool.false_eq_true, if_false] at h
+      split at h
+      · rename_i hc
+        cases h
+        have hlt : ∀ v ∈ idx, v < 2 ^ 11 := by
+          intro v hv
+          have := (List.any_eq_false.mp ha') v hv
+          simp at this; omega
+        -- j = number of 4-byte groups
+        obtain ⟨j, hj, h4, h8⟩ : ∃ j, idx.length = 3 * j ∧ 4 ≤ j ∧ j ≤ 8 := by
+          simp only [Bool.or_eq_true, beq_iff_eq] at hl
+          rcases hl with (((h | h) | h) | h) | h
+          · exact ⟨4, h, by omega, by omega⟩
+          · exact ⟨5, h, by omega, by omega⟩
+          · exact ⟨6, h, by omega, by omega⟩
+          · exact ⟨7, h, by omega, by omega⟩
+          · exact ⟨8, h, by omega, by omega⟩
+        have hbits : (toBits 11 idx).length = 33 * j := by rw [toBits_length, hj]; omega
+        have hent : idx.length * 11 * 32 / 33 = 32 * j := by rw [hj]; omega
+        rw [hent] at hc ⊢
+        have htake : ((toBits 11 idx).take (32 * j)).length = (4 * j) * 8 := by
+          rw [List.length_take, hbits]; omega
+        have hel : ((fromBits 8 ((toBits 11 idx).take (32 * j))).map UInt8.ofNat).length = 4 * j := by
+          rw [List.length_map, fromBits_length 8 (by decide) (4 * j) _ htake]
+        unfold bip39Indices
+        rw [hel]
+        have hok : entropyLenOk (4 * j) = true := by
+          have : j = 4 ∨ j = 5 ∨ j = 6 ∨ j = 7 ∨ j = 8 := by omega
+          rcases this with rfl | rfl | rfl | rfl | rfl <;> decide
+        rw [hok]
+        simp only [Bool.not_true, Bool.false_eq_true, if_false]
+        rw [map_toNat_ofNat _ (fromBits_lt 8 (by decide) (4 * j) _ htake), toBits_fromBits 8 (by decide) (4 * j) _ htake]
+        have hc' : (toBits 11 idx).drop (32 * j) = bip39Checksum H ((fromBits 8 ((toBits 11 idx).take (32 * j))).map UInt8.ofNat) := by
+          simpa using hc
+        rw [← hc', List.take_append_drop, fromBits_toBits 11 (by decide) idx hlt]
+      · cases h
+  · have : (idx.length == 12 || idx.length == 15 || idx.length == 18 || idx.length == 21 || idx.length == 24) = false := by simpa using hl
+    rw [this] at h; simp at h
+
+/-- the entropy an accepted sentence yields is read off its first 32/33 bits -/
+theorem accepted_entropy_eq (H : Bytes → Bytes) (idx : List Nat) (e : Bytes) (h : bip39Entropy H idx = some e) :
+    e = (fromBits 8 ((toBits 11 idx).take (idx.length * 11 * 32 / 33))).map UInt8.ofNat := by
+  unfold bip39Entropy at h
+  split at h
+  · cases h
+  · split at h
+    · cases h
+    · simp only at h
+      split at h
+      · cases h; rfl
+      · cases h
+
+/-- T5: two accepted sentences with the same entropy are the same sentence -/
+theorem accepted_injective (H : Bytes → Bytes) (idx idx' : List Nat) (e : Bytes)
+    (h : bip39Entropy H idx = some e) (h' : bip39Entropy H idx' = some e) : idx = idx' := by
+  have a := accepted_is_canonical H idx e h
+  have b := accepted_is_canonical H idx' e h'
+  rw [a] at b
+  exact Option.some.inj b
+
+/-- T6: substituting words of an accepted sentence without touching its entropy bits (a change confined to the
+checksum bits of the last word) is always rejected -/
+theorem checksum_substitution_rejected (H : Bytes → Bytes) (idx idx' : List Nat) (e : Bytes)
+    (h : bip39Entropy H idx = some e) (hlen : idx'.length = idx.length) (hne : idx' ≠ idx)
+    (hsame : (toBits 11 idx').take (idx.length * 11 * 32 / 33) = (toBits 11 idx).take (idx.length * 11 * 32 / 33)) :
+    bip39Entropy H idx' = none := by
+  cases h' : bip39Entropy H idx' with
+  | none => rfl
+  | some e' =>
+    have e1 := accepted_entropy_eq H idx e h
+    have e2 := accepted_entropy_eq H idx' e' h'
+    rw [hlen, hsame, ← e1] at e2
+    subst e2
+    exact absurd (accepted_injective H idx' idx e' h' h) hne
+
+/-- non-vacuity of T6: with a hash whose first byte is 0x37 the sentence 0 ×11, 3 is accepted and 0 ×11, 4 differs from
+it in checksum bits only -/
+example : bip39Entropy (fun _ => [0x37]) [0, 0, 0, 0, 0, 0, 0, 0, 0, 0, 0, 3] = some (List.replicate 16 0) := by decide +kernel
+example : bip39Entropy (fun _ => [0x37]) [0, 0, 0, 0, 0, 0, 0, 0, 0, 0, 0, 4] = none := by decide +kernel
+
 end Btc.C14
